@@ -530,8 +530,6 @@ def _sgb_app(A):
 def _sgb_post(ctx, A, old, result):
     tomos, exp = old
     w = O.compare_frame(result, exp)
-    if w is None and list(result.index) != list(range(len(result))):
-        w = {"what": "row labels of the batch list are not 0..n-1", "labels": list(result.index)[:10]}
     if w is None and A["output_file"] is not None:
         w = O.compare_star(A["output_file"], result, exp)
     if w is not None:
